@@ -13,6 +13,7 @@
 use std::any::{Any, TypeId};
 use std::collections::BTreeMap;
 use std::future::Future;
+use std::{cmp, mem, ptr};
 use std::panic;
 use std::pin::Pin;
 use std::sync::atomic::{AtomicU64, AtomicUsize, Ordering as AtomicOrdering};
